@@ -49,6 +49,7 @@ func init() {
 			runDelivery(c, p, R, deliveryRuleOf, map[string]string{"C01.R4": "C01.R4"})
 			checkRegistryEdits(c, p, R, "C01.R5")
 			checkWriteBacks(c, p, R, "C01.R5")
+			checkPublishCtxNotNarrowed(c, p, R, "C01.R4")
 			c.Floor("C01.R4", "dispatch sites", c.Stats["dispatch_sites"], 2)
 			c.Assume = append(c.Assume, "reflect.Type values are comparable map keys identifying a type", "delivered values equal published values (not decided)", "interface-typed T: Publish keys by dynamic type, Subscribe by static type (outside the quantifier)")
 		},
@@ -79,7 +80,7 @@ func init() {
 			checkWriteBacks(c, p, R, "C02.R2")
 			checkRegistryEdits(c, p, R, "C02.R2")
 			checkSnapshot(c, p, R, "C02.R3")
-			runDelivery(c, p, R, deliveryRuleOf, map[string]string{"C04.R1": "C02.R3"})
+			runDelivery(c, p, R, deliveryRuleOf, map[string]string{"C04.R1": "C02.R3", "C04.R2": "C02.R3"})
 			c.Assume = append(c.Assume, "sync.RWMutex semantics", "an array/slice element read twice on one path is not changed in between")
 			_ = fmt.Sprint
 		},
